@@ -84,7 +84,8 @@ class ListSchema(Schema[ListProps]):
            is_ellipsis(elements_or_type[0]) and is_ellipsis(elements_or_type[-1]):
             raise DeclarationError("`...` must be first or last element")
 
-        return self.__class__(self.props.update(elements=elements_or_type))
+        # copy: the schema must not change when the caller mutates its list afterwards
+        return self.__class__(self.props.update(elements=list(elements_or_type)))
 
     def __declare_len(self, props: ListProps, length: Any) -> ListProps:
         if not isinstance(length, int):
